@@ -1064,7 +1064,7 @@ pub(crate) fn t_scroll(c: TCfg, op: ScrollOp, nfix: u32) {
         Dl => t.execute(Function::Dl(n)),
     }
     assert!(b_len(&t.buffer) == post_len, "[C06][C14] lines() grows by exactly the rows scrolled off the top of a range that starts at the first row, and by nothing otherwise");
-    check_exp!(&t, &w, e, "[C06][C08] scrolling shifts exactly the rows of its range by n, blanks the vacated rows in the current pen and leaves every other line unchanged", "[C06] scrolling keeps the soft-wrap marks of the lines it moves or leaves alone");
+    check_exp!(&t, &w, e, "[C06][C08][C14] scrolling shifts exactly the rows of its range by n, blanks the vacated rows in the current pen and leaves every other line (scrollback included) unchanged", "[C06][C14] scrolling keeps the soft-wrap marks of the lines it moves or leaves alone (scrollback included)");
     // cursor
     let (col, crow, pw) = (t.cursor.col, t.cursor.row, t.pending_wrap);
     match op {
@@ -1708,7 +1708,7 @@ pub(crate) fn t_ctx(c: TCfg, op: CtxOp) {
         Decstr => {
             let d = ctx_of(&SavedCtx::default());
             assert!(s.saved == d, "[C17] soft reset empties the active screen's saved context (restoring then gives the power-on defaults)");
-            assert!(s.alt_saved == pre.alt_saved && s.alt == pre.alt, "[C17] soft reset leaves the other screen's saved context alone");
+            assert!(s.alt_saved == pre.alt_saved && s.alt == pre.alt, "[C17][C16] soft reset leaves the other screen's saved context alone");
             // which modes a soft reset restores is not part of any property: not asserted
             allow.cursor = true;
             allow.visible = true;
